@@ -26,7 +26,7 @@ RULE = ("interpolation: label vectors over {0,1,2,3} (isolated, clusters of adja
 ASSUMPTIONS = ["a bad channel's admissible neighbours = non-bad channels whose distance-decay weight exp(-(d/20um)^1.3) is >= 0.005 (d <= 72.1 um)",
                "detection is judged on generated backgrounds only; the feature margins measured on the run are written to the evidence",
                "mode over batches is asserted only without ties (7/3 splits)"]
-REQUIRED = {"interp_cases": 40, "nonfinite_bad_rows": 20, "bad_rows_checked": 100, "untouched_rows_checked": 40, "detection_cases": 20, "file_mode_cases": 2, "spied_batches": 20, "plurality_channels": 1, "file_mode_cbin": 1}
+REQUIRED = {"interp_cases": 40, "nonfinite_bad_rows": 20, "bad_rows_checked": 100, "untouched_rows_checked": 40, "detection_cases": 20, "file_mode_cases": 2, "spied_batches": 20, "plurality_channels": 1, "file_mode_cbin": 1, "file_mode_np1_own_maxint": 1}
 CASE_TIMEOUT = 200.0
 KINDS = ["3B2", "NP2.1", "NP2.4", "NPultra"]
 
@@ -268,7 +268,12 @@ def run_case(case):
             # NP1: the sites saved in an order that is not the probe order, and AP gains that differ from channel to channel (250 / 500 / 1000)
             fsites = G.draw_sites(rng, fkind, n, "random")
             fgains = np.c_[rng.choice([250, 500, 1000], 384), np.full(384, 250)]
-        rec = G.make(rng, kind=fkind, sites=fsites, gains=fgains, ns=ns, raw=np.zeros((1, 1), np.int16), nsync=fnsync)
+        fmaxint = None
+        if fkind == "3B2":
+            fmaxint = (512, 2048, 512, 1024)[ci % 4]       # NP1-family headers that announce their own ADC range (imMaxInt)
+        rec = G.make(rng, kind=fkind, sites=fsites, gains=fgains, ns=ns, raw=np.zeros((1, 1), np.int16), nsync=fnsync, maxint=fmaxint)
+        if fmaxint not in (None, 512):
+            res.count("file_mode_np1_own_maxint")
         if fkind == "3B2":
             res.count("file_mode_permuted_mixed_gains", int(not np.array_equal(rec.order, np.arange(n)) and len(np.unique(rec.s2v[:n])) > 1))
         s2v = rec.s2v[:n]
